@@ -190,12 +190,12 @@ func TestProxyExhaustive(t *testing.T) {
 			var recur func(d int)
 			recur = func(d int) {
 				c := &PCase{Caps: caps, Accept: acc, Ops: ops[:d]}
-				// Flush before anything was sent is outside the quantified alphabet
+				// Flush may come first too: it is no WriteHeader/Write/ReadFrom call and must not count as one
 				ok := true
 				sent := false
 				for _, o := range c.Ops {
 					if o.K == "flush" && !sent {
-						ok = false
+						ok = true // Flush first: not a WriteHeader/Write/ReadFrom call, so the status stays "the first WriteHeader, 200 if the body came first, 0 if nothing"
 					}
 					if o.K != "flush" {
 						sent = true
@@ -233,12 +233,9 @@ func TestProxyRapid(t *testing.T) {
 	rapid.Check(t, func(rt *rapid.T) {
 		c := &PCase{Caps: rapid.SampledFrom([]string{"basic", "flusher", "full"}).Draw(rt, "caps"), Accept: rapid.SampledFrom([]int{-1, -1, 0, 1, 10, 100, 5000}).Draw(rt, "accept")}
 		n := rapid.IntRange(0, 20).Draw(rt, "n")
-		sent := false
 		for i := 0; i < n; i++ {
 			k := rapid.SampledFrom([]string{"wh", "w", "w", "rf", "flush"}).Draw(rt, "k")
-			if k == "flush" && !sent {
-				k = "w"
-			}
+
 			op := POp{K: k}
 			switch k {
 			case "wh":
@@ -246,7 +243,6 @@ func TestProxyRapid(t *testing.T) {
 			case "w", "rf":
 				op.N = rapid.SampledFrom([]int{0, 1, 2, 100, 4096, 70000}).Draw(rt, "bytes")
 			}
-			sent = true
 			c.Ops = append(c.Ops, op)
 		}
 		msg, nt := runProxy(c)
